@@ -96,48 +96,60 @@ CLAIMED = {
             "TLC classifies every half-lattice point of the box around 25 lattice bodies (all magnet classes, incl. non-convex meshes and 7 cylinder segments) as inside / on a named "
             "boundary stratum / outside, exactly, and checks that geometry library on ~0.5M states (rotation invariance, partitions, mesh = cuboid). Real getB/H/J/M calls at every such point, "
             "3-24 lattice poses, random rigid motions and units, truthful in_out, several batch compositions and core functions are quantized to 1e-12 of the gross scale; TLC requires "
-            "J = R*pol inside, 0 outside, either on the boundary, 0 for non-magnets, B = mu0 H + J and J = mu0 M, and the attribute law polarization = mu_0 * magnetization.",
+            "J = R*pol inside, 0 outside, either on the boundary, 0 for non-magnets, B = mu0 H + J and J = mu0 M, and the attribute law polarization = mu_0 * magnetization "
+            "after EVERY assignment of a sequence whatever its outcome (ok / warned / raised; default filters and warnings as errors). Pairs of DIFFERENT meshes that agree in cheap "
+            "summaries (facet count, leading facets, bounding box, volume) are evaluated jointly in both orders, every observer classified exactly against both bodies.",
             "Trusted: TLC, quantization, lattice bodies only (generic shapes through the concretization). Tolerance 1e-12 of gross for the consistency laws.",
             "DESIGN.md section 5 C02"),
     "C03": ("exploration",
             "TLC-checked premises (RigidMove of whole configurations incl. paths, exact relative placement) + TLC judgement of quantized observations before/after (TV_Laws): obs2 = g.obs1",
             "TLC explores behaviours of RigidMove over the 24 cube rotations and lattice translations on 11 source classes with paths and sensors and proves for each step that the relative "
             "placement is unchanged; each abstract configuration is instantiated under generic rigid motions and units and evaluated; TLC checks the signed-permutation law on quantized "
-            "fields (1e-8 near, 1e-5 far) and invariance under a change of the generic gauge.",
+            "fields (1e-8 near, 1e-5 far) and invariance under a change of the generic gauge. The placement law (Freeze: a configuration with paths of unequal lengths equals, at path "
+            "index m, the static configuration with every object at its pose min(m, own length)) decides the property's second sentence; fine-step images of rotation paths and of "
+            "tilts within a group (1e-3..1e-5 degrees) are judged on the CHANGE of the field along the path.",
             "Trusted: TLC, quantization. Relative placements are lattice placements; genericity enters through the concretization only.",
             "DESIGN.md section 5 C03"),
     "C12": ("exploration",
             "same law engine: Rescale over the decades 1e-9..1e9 and ScaleExc over 1e-12..1e12 with TLC-decided exponent table and exact inside/outside classes (TV_Laws)",
             "14 base configurations (all classes, mesh variants) x observer classes (deep inside, near faces, edges, edge extensions, far) are instantiated at 7 (quick) / 19 (thorough) decades; "
             "TLC requires obs * lambda^e equal to the unit-scale observation (exponents 0 / -1 / -3), identical inside/outside classes and mesh status/orientation at every decade, and "
-            "linearity in the excitation magnitude.",
+            "linearity in the excitation magnitude. Scenes of several magnets in one call (mesh+mesh of equal face count, mesh+cuboid) with observers inside exactly one body, every mesh "
+            "constructor (from_triangles, from_mesh, from_ConvexHull, to_TriangleCollection) through all decades, half of the plan with lattice units of generic mantissa.",
             "Trusted: TLC, quantization; observers are never placed on a surface for value laws.",
             "DESIGN.md section 5 C12"),
     "C13": ("exploration",
             "same law engine: Split / Convert / Merge with premises decided exactly by TLC (disjoint interiors, equal volume by integer determinants, observers off all cuts) and Obs(whole) = sum Obs(parts) (TV_Laws)",
             "Cuboid splits and merges, Cuboid = mesh = convex hull = 5/6 tetrahedra = 12 triangle sheets (H), mesh conversions (to_TriangleCollection, from_triangles, from_mesh), Cylinder = full "
-            "segment = r/phi/z segments (incl. crossing 180 degrees), Sphere outside = Dipole, Circle vs inscribed N-gons with the 1/N^2 rate law; behaviours of up to 4 steps from TLC.",
+            "segment = r/phi/z segments (incl. crossing 180 degrees), Sphere outside = Dipole, Circle vs inscribed N-gons with the 1/N^2 rate law; behaviours of up to 4 steps from TLC. "
+            "Observers also exactly on the extension lines of all 12 cuboid edges and of face planes (exact lattice gauge); representations carry a history (built un-normalised, used, "
+            "then reorient_faces(), then compared: 'use, change, use = change, use').",
             "Trusted: TLC, two-limb quantization (1e-12) so sums over 14 parts are not swamped; tolerance 1e-8 near / 1e-5 far.",
             "DESIGN.md section 5 C13"),
     "C15": ("exploration",
             "special sets of every geometry enumerated on the half-lattice by Physics.tla (with the documented singular points marked) + TLC judgement of finiteness / shape / termination observations (TV_Finite)",
             "Every point of the box around 17 valid sources incl. zero-size and zero-excitation ones is evaluated exactly, at +-1/+-4 ulp and 1e-12..1e-6 sizes beside it, at units 1e-9..1e9, "
             "under lattice and generic motions and at 15 far directions up to 1e12 sizes, through the object interface and magpylib.core, under a CPU watchdog; TLC allows non-finite values "
-            "only at the documented singular points and requires the documented shape, no exception and no timeout. All 53 named special sets must be reached (else machinery error).",
+            "only at the documented singular points and requires the documented shape, no exception and no timeout. All 53 named special sets must be reached (else machinery error). "
+            "24 degenerate-but-accepted geometries of the functional interface / core (zero sides, zero diameter or height, r1 = r2, coinciding segment ends) are evaluated on their rim / "
+            "line / point special sets in calls whose rows alternate with a regular body of the same class.",
             "Termination is observed under a watchdog, not proved. Finite-but-wrong values are not judged here.",
             "DESIGN.md section 5 C15"),
     "C16": ("model_checking",
             "exact mesh ground truth in TLA+ (open / components / orientation / signed volume / triangle-triangle intersection, Mesh.tla) model-checked over mesh transformations + every variant built as a real TriangularMesh and judged by TLC (TV_Mesh)",
             "TLC explores permutations, renumberings, flips, rewinds, deletions, duplications and interpenetrations of tetrahedron (all 9216 variants), box, prism, octahedron and L-shape and "
             "checks that the ground-truth predicates are invariant / change as they must. Every state is built as a real TriangularMesh at several units; TLC compares status_open/"
-            "disconnected/selfintersecting, the reoriented faces (same face sets, all outward) and B/H at inside and outside observers of every variant against the base.",
+            "disconnected/selfintersecting, the reoriented faces (same face sets, all outward) and B/H at inside and outside observers of every variant against the base. A second family "
+            "of flat bodies (integer stretches 1:10, 1:400, 1:10^4 along each axis, every face in turn as the orientation seed, one and two parts) is judged exactly on the destretched mesh.",
             "Trusted: TLC, exact integer predicates; self-intersection of non-box bodies limited to proper crossings.",
             "DESIGN.md section 5 C16"),
     "C18": ("model_checking",
             "abstract heap model of copy() (cells, references, aliasing; MC_Heap with refuted counter-designs) + alias graph and projections of real copies and 46 mutations per side judged by TLC (TV_Heap)",
             "TLC checks NoSharing, Independence, CopyParentless, CopySubtreeForest, OriginalUntouched and OverridesOnlyCopy on the heap model and must refute four counter-designs (shallow "
             "position/style/children, kept parent). For 13 classes x 4 tree shapes x parent yes/no x style none/pending/initialised x 20 keyword forms real copies are taken; the alias graph over "
-            "all numpy buffers and containers, public projections, field equality and the effect of every later mutation on the other side are logged and judged by TLC.",
+            "all numpy buffers and containers, public projections, field equality and the effect of every later mutation on the other side are logged and judged by TLC. The keyword values "
+            "of copy() live in a caller-owned argument node (ArgumentsUntouched, second copy with the same containers, None-valued keywords, style dict + underscore keyword of one branch); "
+            "TLC refutes six counter-designs.",
             "Trusted: TLC; state outside instance __dict__ (closures of field functions, class attributes) is not seen by the alias graph.",
             "DESIGN.md section 5 C18"),
     "C19": ("exploration",
@@ -151,7 +163,8 @@ CLAIMED = {
             "finite Style model checked to the fixpoint (precedence, last-wins, frame conditions, reset, copy independence) + the abstract behaviours instantiated on every real style leaf through 40 notations and judged by TLC (TV_Style)",
             "TLC explores all histories of SetObj/SetDefault/Reset/Copy/Show incl. invalid names/values over 3 objects, 2 family chains, 2 leaves. Each of the 272 object leaves and 146 default "
             "leaves is driven through every notation (constructor keyword/dict, attribute, update forms, style=, show keyword/dict, family/base defaults, reset, copy) with witness objects of the "
-            "same and another family; TLC judges each step: value set, nothing else changed, resolved style = first set candidate, rejected input unchanged, reset restores.",
+            "same and another family; TLC judges each step: value set, nothing else changed, resolved style = first set candidate, rejected input unchanged, reset restores. "
+            "Collection.set_children_styles is the action SetKids of the machine (members, recursion, skipped leaves, caller's dictionary untouched, nothing changed when rejected).",
             "Trusted: TLC; one representative class per style class; family chains as documented.",
             "DESIGN.md section 5 C20"),
     "C14": ("exploration",
